@@ -92,7 +92,7 @@ theorem v2c_C15_reachable_queries_no_ub (ops : List Op) (hapi : ops.all apiOp = 
 only by code that bypasses `crate`) entries with a non-positive track id are not re-linked by the
 schema's delete trigger, and listing the playlist then dereferences a missing tail. -/
 theorem v2c_C15_table_level_counterexample :
-    qEntities (run Db.empty [.peAddBack 3 2 false, .peAddBack 3 3 false, .peAddBack 3 0 false, .peRemove 3 3]) 3 =
+    qEntities (run Db.empty [.peAddBack 3 2 0 false, .peAddBack 3 3 0 false, .peAddBack 3 0 0 false, .peRemove 3 3]) 3 =
       .ub .oob_read := by
   decide +kernel
 
